@@ -263,7 +263,7 @@ func (e *Env) dominatedByGates(rule string, fn *ssa.Function, cfg gcfg, calleePa
 	for _, g := range gates {
 		key := name + ":before(" + calleePat + "):" + g.Key
 		// exits are irrelevant: ask for an outcome no return can have
-		_, w := ctx.EstablishedFrom(fn, fn.Blocks[0], gate.Outcome{Kind: gate.NonNil, Idx: 1 << 20}, g, stop)
+		_, w := ctx.EstablishedFrom(fn, fn.Blocks[0], gate.Outcome{Kind: gate.NoExit}, g, stop)
 		reached := false
 		for _, line := range w {
 			if strings.HasPrefix(line, "reaches block") {
@@ -420,4 +420,42 @@ func (e *Env) afterStore(rule string, fn *ssa.Function, addrPat string, o gate.O
 	if n == 0 {
 		e.R.Fail(rule, name+":after-store("+addrPat+")", e.P.Pos(fn.Pos()), "no store to "+addrPat)
 	}
+}
+
+// gatesBefore: every path from the entry of fn to an instruction accepted by
+// match passes each gate.  label names the instruction class in the key.
+func (e *Env) gatesBefore(rule string, fn *ssa.Function, cfg gcfg, label string, match func(ssa.Instruction) bool, gates ...gate.Gate) int {
+	if fn == nil {
+		return 0
+	}
+	name := load.FuncName(fn)
+	n := 0
+	for _, b := range fn.Blocks {
+		for _, in := range b.Instrs {
+			if !match(in) {
+				continue
+			}
+			n++
+			stop := map[*ssa.BasicBlock]bool{b: true}
+			ctx := gate.New(e.P, e.P.VTA(), cfg.assume...)
+			for _, g := range gates {
+				key := fmt.Sprintf("%s:before(%s#%d):%s", name, label, n, g.Key)
+				_, w := ctx.EstablishedFrom(fn, fn.Blocks[0], gate.Outcome{Kind: gate.NoExit}, g, stop)
+				reached := b == fn.Blocks[0]
+				for _, line := range w {
+					if strings.HasPrefix(line, "reaches block") {
+						reached = true
+					}
+				}
+				if !reached {
+					x := e.R.OK(rule, key, e.P.InstrPos(in), "every path to this instruction passes "+g.Desc)
+					x.Config = cfg.name
+				} else {
+					x := e.R.Fail(rule, key, e.P.InstrPos(in), "the instruction is reachable without passing "+g.Desc, w...)
+					x.Config = cfg.name
+				}
+			}
+		}
+	}
+	return n
 }
